@@ -25,6 +25,14 @@ func verifRank(name string) int {
 	return 4
 }
 
+func verifJoin(l []string) string {
+	out := ""
+	for _, x := range l {
+		out += x + ","
+	}
+	return out
+}
+
 func verifIdx(names S, s string) int {
 	for i, x := range names {
 		if x == s {
@@ -36,7 +44,7 @@ func verifIdx(names S, s string) int {
 
 // VerifC05Order: phase order, visibility, veto and exactly-once rules of the handler lifecycle.
 func VerifC05Order() {
-	s := verifNewScn(vParam("n", 2), vParam("auto", 0) == 1, vParam("multi", 0) == 1, vParam("after", 0) == 1, true, true, true)
+	s := verifNewScn(vParam("n", 2), vParam("auto", 0) == 1, vParam("multi", 0) == 1, vParam("after", 0) == 1, true, true, vParam("novetos", 0) == 0)
 	s.inject(false)
 	kind, called, res := s.mutate()
 	post := s.m.ActiveStates(nil)
@@ -45,12 +53,7 @@ func VerifC05Order() {
 	for _, e := range s.tr.log {
 		if e.kind == "end" {
 			postT = e.after
-			post = nil
-			for i, name := range s.m.stateNames {
-				if postT[i]%2 == 1 {
-					post = append(post, name)
-				}
-			}
+			post = e.active
 			s.calls = s.calls[:e.ncalls]
 			break
 		}
@@ -164,6 +167,7 @@ func VerifC05Order() {
 		}
 	}
 	relOK := true
+	nonAdjacent := false // a violated After pair with another handler of the same phase between the two
 	for i := range s.calls {
 		for j := range s.calls {
 			if i >= j {
@@ -180,11 +184,34 @@ func VerifC05Order() {
 				// unless y must also come after x (cycle: no order can satisfy both)
 				if !(verifHas(s.schema[y].After, x) || verifHas(s.schema[y].Require, x)) {
 					relOK = false
+					if verifHas(s.schema[x].After, y) {
+						// position in the sorted target list (= the active list after / before the transition)
+						list := post
+						if ra == 0 {
+							list = s.pre
+						}
+						px, py := verifIdx(list, x), verifIdx(list, y)
+						if px >= 0 && py >= 0 && (px-py > 1 || py-px > 1) {
+							nonAdjacent = true
+						}
+						if (px < 0 || py < 0) && len(s.names) >= 3 {
+							// canceled transition: the sorted target list is not observable
+							nonAdjacent = true
+						}
+					}
 				}
 			}
 		}
 	}
-	vKnown("c05-after-not-transitive", vParam("after", 0) == 1 && vParam("n", 2) >= 3)
+	if !vSymbolic() {
+		// native replay: show the handler sequence
+		var seq []string
+		for _, c := range s.calls {
+			seq = append(seq, c.name)
+		}
+		println("VERIF-CALLS", len(seq), verifJoin(seq), "pre", verifJoin(s.pre), "called", verifJoin(called))
+	}
+	vKnown("c05-after-not-transitive", nonAdjacent)
 	vAssert("after-require-order", relOK)
 }
 
